@@ -135,7 +135,7 @@ def shard_exhaustive(sh, part, parts):
         for caps in gen.chunks(seqs, parts)[part]:
             hid += 1
             mon.reset_history()
-            cand = [('h%d-%d-%d' % (part, hid, i), 'label') for i in range(m)]
+            cand = [('h%d-%d-%d' % (part, hid, i), 'label') if (i + hid) % 2 else ('label', 'h%d-%d-%d' % (part, hid, i)) for i in range(m)]
             for cap in caps:
                 mon(list(cand), pipe.make_args(combination_number_upper_bound=cap))
             sh.case((m, caps), any(c < m for c in caps), 'exhaustive-m%d' % m, sample={'candidates': m, 'caps': caps, 'final_counts': [mon.counter()[k] for k in cand]} if hid % 3000 == 1 else None)
@@ -154,7 +154,7 @@ def shard_random(sh, part, parts):
         for li in range(nlists):
             m = rng.choice([1, 2, 3, 7, 20, 50, 300]) if h % 2 else rng.randint(1, 40)
             arity = rng.choice([2, 2, 3, 4])
-            lists.append([tuple('r%d-%d-%d-%d-%d' % (part, h, li, i, j) for j in range(arity)) for i in range(m)])
+            lists.append([tuple(rng.sample(['r%d-%d-%d-%d-%d' % (part, h, li, i, j) for j in range(arity)], arity)) for i in range(m)])
         L = rng.choice([3, 10, 40, 400]) if max(len(x) for x in lists) <= 50 else rng.choice([3, 10, 40])
         style = rng.choice(['fixed', 'random', 'oscillating', 'above'])
         caps = []
@@ -191,6 +191,8 @@ def shard_pipeline(sh, part):
     # (a) many batches through mixed_rank_graph, target-only, cap < #features
     nfeat = rng.choice([5, 9, 17])
     cols = ['f%d' % i for i in range(nfeat)] + ['label']
+    if part % 2:
+        cols = ['label'] + ['f%d' % i for i in range(nfeat)]      # pairs come out as ('label', f): not in sorted order
     batches = 30 if sh.tier == 'quick' else 200
     cap = rng.randint(1, nfeat)
     total_evaluated = Counter()
